@@ -5,12 +5,14 @@ import os, re, sys
 sys.path.insert(0, os.path.join(os.path.dirname(os.path.abspath(__file__)), "..", "tools"))
 from vlib import *
 
-OVERLAY = {"p2p/net/swarm/zz_c05_verif_test.go": "harness/overlay/swarm/c05_verif_test.go"}
+OVERLAY = {"p2p/net/swarm/zz_c05_verif_test.go": "harness/overlay/swarm/c05_verif_test.go",
+           "p2p/net/swarm/zz_c05w_verif_test.go": "harness/overlay/swarm/c05w_verif_test.go"}
 PKG = "p2p/net/swarm"
 
 
 def consts(ctx):
-    ctx.gen_consts_go(PKG, ["ConcurrentFdDials", "DefaultPerPeerRateLimit"])
+    ctx.gen_consts_go(PKG, ["ConcurrentFdDials", "DefaultPerPeerRateLimit", "PublicTCPDelay", "PrivateTCPDelay",
+                            "PublicQUICDelay", "PrivateQUICDelay", "RelayDelay", "PublicOtherDelay", "PrivateOtherDelay"])
 
 
 def harness(ctx, casefile, tier, seed):
